@@ -196,7 +196,14 @@ class Wire:
             return "UUIDTXT"
         if names[0] in RAW_WRITE or names[-1] in RAW_WRITE:
             k, content = self.buffer_kind(body, t["args"][1])
-            return "RAW:" + k + ("=" + ",".join(str(x) for x in content) if content is not None and len(content) <= 2 else "")
+            if names[0] in self.prog.bodies and names[0] != body.key:
+                # a local wrapper (encode::write_all_bytes): what it does with the bytes is read from its own body
+                pre = self._wrapper_prefix(names[0])
+                return pre + k + ("=" + ",".join(str(x) for x in content) if content is not None and len(content) <= 2 else "")
+            # `Write::write` may accept only part of the buffer: it is not the "all bytes" move the tables describe
+            # (calls on a concrete Vec<u8> always take everything)
+            partial = names[0] == "std::io::Write::write" and not (t.get("argtys") and "Vec<u8>" in t["argtys"][0])
+            return ("RAWPARTIAL:" if partial else "RAW:") + k + ("=" + ",".join(str(x) for x in content) if content is not None and len(content) <= 2 else "")
         if names[0] in RAW_READ:
             k, content = self.buffer_kind(body, t["args"][1])
             return "RAW:" + k
@@ -257,6 +264,20 @@ class Wire:
                         dq.append(p)
             self._rel = rel
         return self._rel
+
+    def _wrapper_prefix(self, key):
+        if not hasattr(self, "_wp"):
+            self._wp = {}
+        if key not in self._wp:
+            wb = self.prog.bodies[key]
+            kinds = []
+            for bi, t in wb.calls():
+                nm = callee_names(t["func"])
+                if nm and nm[0] in ("std::io::Write::write_all", "std::io::Write::write"):
+                    partial = nm[0] == "std::io::Write::write" and not (t.get("argtys") and "Vec<u8>" in t["argtys"][0])
+                    kinds.append("RAWPARTIAL:" if partial else "RAW:")
+            self._wp[key] = kinds[0] if len(kinds) == 1 else "RAW?:"
+        return self._wp[key]
 
     def local_callee(self, t):
         names = callee_names(t["func"])
@@ -352,7 +373,7 @@ class Wire:
             return False
 
         def is_stream_tok(k_):
-            return k_.startswith(("INT", "LONG", "RAW:", "RECUR", "BLOCKHDR"))
+            return k_.startswith(("INT", "LONG", "RAW:", "RAWPARTIAL:", "RECUR", "BLOCKHDR"))
 
         def stars(k, n):
             return k + "*" * n
